@@ -22,6 +22,7 @@ CLAUSE_PROP = {
     "raised_had_exception": "C11", "raised_no_staging_left": "C11", "raised_target_old_or_new": "C11",
     "snap_target_old_or_new": "C11", "snap_target_matches_protocol": "C11", "snap_staging_matches_protocol": "C11",
     "snap_mtime_only_with_new": "C11",
+    "rejected_value_leaves_target_untouched": "C11",
     "inv_OldOrNew": "C11", "inv_NoStagingAfterException": "C11", "inv_LeftoverStagingHarmless": "C11",
     "recovery_failed": "C11",
     "read_returns_target": "C12", "mtime_none_iff_absent": "C12", "mtime_never_decreases": "C12",
@@ -240,6 +241,10 @@ def run_case(case):
             events = ev0 + list(T.events)
             if exc is None:
                 extra.append({"clause": "bad_value_accepted", "what": "unserialisable value was written without error"})
+            else:
+                # the value can never be "in place": the write must leave the previous value and its modified time alone
+                sn = events[-1]
+                events.append({"e": "rejected", "t": sn["t"], "mc": sn["mc"]})
             follow_up(d, path, events)
             traces.append({"events": [norm_ev(e) for e in events]})
             meta.append({"kind": kind, "pathkind": pathkind, "big": big, "fault": {"kind": "serialisation"}})
